@@ -50,6 +50,7 @@ type Conn struct {
 	parked int // readers waiting with an empty queue
 	reads  int // completed Read calls
 
+	wdeadline time.Time
 	rdeadline time.Time // read deadline (zero: none)
 	timeouts  int       // reads that ended with a deadline error
 	writes    []WriteRec
@@ -194,6 +195,12 @@ func (c *Conn) Write(b []byte) (int, error) {
 		return 0, ErrClosed
 	}
 	hook := c.WriteHook
+	if !c.wdeadline.IsZero() && !start.Before(c.wdeadline) {
+		c.writes = append(c.writes, WriteRec{Start: start, End: start, Err: &TimeoutError{}})
+		c.cond.Broadcast()
+		c.mu.Unlock()
+		return 0, &TimeoutError{}
+	}
 	c.mu.Unlock()
 	var n int
 	var err error
@@ -231,9 +238,12 @@ func (c *Conn) Close() error {
 	return nil
 }
 
-func (c *Conn) LocalAddr() net.Addr           { return c.Local }
-func (c *Conn) RemoteAddr() net.Addr          { return c.Remote }
-func (c *Conn) SetDeadline(t time.Time) error { return c.SetReadDeadline(t) }
+func (c *Conn) LocalAddr() net.Addr  { return c.Local }
+func (c *Conn) RemoteAddr() net.Addr { return c.Remote }
+func (c *Conn) SetDeadline(t time.Time) error {
+	c.SetWriteDeadline(t)
+	return c.SetReadDeadline(t)
+}
 func (c *Conn) SetReadDeadline(t time.Time) error {
 	c.mu.Lock()
 	c.rdeadline = t
@@ -241,7 +251,14 @@ func (c *Conn) SetReadDeadline(t time.Time) error {
 	c.mu.Unlock()
 	return nil
 }
-func (c *Conn) SetWriteDeadline(t time.Time) error { return nil }
+
+// SetWriteDeadline: a Write that starts after the deadline fails with a timeout error, as on a socket.
+func (c *Conn) SetWriteDeadline(t time.Time) error {
+	c.mu.Lock()
+	c.wdeadline = t
+	c.mu.Unlock()
+	return nil
+}
 
 // wait blocks until pred holds (under the lock) or the timeout expires.
 func (c *Conn) wait(timeout time.Duration, pred func() bool) bool {
